@@ -60,9 +60,9 @@ def builtin_table():
     return res
 
 
-LITERALS = {"r": [("0.5_r_def", {"k": "lit", "t": "real", "n": 1, "d": 2}),
-                  ("-2.0_r_def", {"k": "un", "op": "-",
-                                  "e": {"k": "lit", "t": "real", "n": 2, "d": 1}})],
+LITERALS = {"r": [("-2.0_r_def", {"k": "un", "op": "-",
+                                  "e": {"k": "lit", "t": "real", "n": 2, "d": 1}}),
+                  ("0.5_r_def", {"k": "lit", "t": "real", "n": 1, "d": 2})],
             "i": [("3_i_def", {"k": "lit", "t": "int", "v": 3}),
                   ("-2_i_def", {"k": "un", "op": "-",
                                 "e": {"k": "lit", "t": "int", "v": 2}})]}
